@@ -3,6 +3,7 @@ package props
 import (
 	"context"
 	"fmt"
+	"math"
 	"strings"
 	"testing"
 
@@ -75,8 +76,19 @@ func genC13(t *rapid.T) bson.D {
 		used[p] = true
 		sortDoc = append(sortDoc, bson.E{Key: p, Value: rapid.SampledFrom([]interface{}{int32(1), int32(-1), int64(1), float64(-1)}).Draw(t, "sd")})
 	}
-	skip := rapid.IntRange(0, 6).Draw(t, "skip")
-	limit := rapid.IntRange(0, 6).Draw(t, "limit")
+	skip := int64(rapid.IntRange(0, 6).Draw(t, "skip"))
+	limit := int64(rapid.IntRange(0, 6).Draw(t, "limit"))
+	// windows far beyond the collection are windows too
+	big := []int64{7, 41, 1000, math.MaxInt32, math.MaxInt32 + 1, math.MaxInt64 - 1, math.MaxInt64}
+	switch rapid.IntRange(0, 999).Draw(t, "bigwin") % 12 {
+	case 5:
+		limit = rapid.SampledFrom(big).Draw(t, "biglimit")
+	case 6:
+		skip = rapid.SampledFrom(big).Draw(t, "bigskip")
+	case 7:
+		limit = rapid.SampledFrom(big).Draw(t, "biglimit")
+		skip = rapid.SampledFrom(big).Draw(t, "bigskip")
+	}
 	dpath := rapid.SampledFrom([]string{"a", "b", "c", "a.b", "a.c", "_id", "a.0"}).Draw(t, "dpath")
 	// the natural order must survive deletions: remove some documents after
 	// the inserts (and put one of them back, which moves it to the end)
@@ -87,7 +99,7 @@ func genC13(t *rapid.T) bson.D {
 		}
 	}
 	reinsert := len(deleted) > 0 && rapid.IntRange(0, 3).Draw(t, "reins") == 0
-	return bson.D{{Key: "deleted", Value: deleted}, {Key: "reinsert", Value: reinsert}, {Key: "docs", Value: docs}, {Key: "filter", Value: filter}, {Key: "sort", Value: sortDoc}, {Key: "skip", Value: int32(skip)}, {Key: "limit", Value: int32(limit)}, {Key: "dpath", Value: dpath}}
+	return bson.D{{Key: "deleted", Value: deleted}, {Key: "reinsert", Value: reinsert}, {Key: "docs", Value: docs}, {Key: "filter", Value: filter}, {Key: "sort", Value: sortDoc}, {Key: "skip", Value: skip}, {Key: "limit", Value: limit}, {Key: "dpath", Value: dpath}}
 }
 
 // refSortKey returns the reference sort key of doc for one sort field or
